@@ -4,6 +4,11 @@ import json, os
 V = os.path.dirname(os.path.dirname(os.path.abspath(__file__)))
 
 CHECKS = {
+    "C17": dict(
+        text="Coq theorems over a model of ConnectionTransportTLS.Dial and the TLS constructors in which crypto/tls + crypto/x509 are their three checks (chain to a configured root, validity period, host name): a dial completes iff the peer handshakes and its certificate satisfies the effective configuration; built from root certificates that means chains to those roots, not expired, valid for the host of THIS dial; a wrong issuer / wrong name / expired certificate fails the dial and creates no transport; a peer that never completes the handshake makes the dial fail by the timer arm; the supplied tls.Config is copied (keeping the caller's object is refuted with a witness). Which configuration is built, that InsecureSkipVerify occurs nowhere, the select with the timer, the default for a zero timeout and the Clone are regenerated from the source. The extracted model is compared with REAL handshakes over loopback connections from a custom dialer against certificates minted per run (2 CAs, 7 server certificates) for every combination of constructor x dialed host x certificate x server behaviour (handshakes, silent, closes mid-handshake, garbage) x caller mutating its config afterwards, silent peers also over an unbuffered pipe whose writes block, and sequences of 2-3 dials on one transport through a remote that walks over two host names.",
+        note="PARTIAL: crypto/tls and crypto/x509 are trusted and abstracted (the model's primitives are calibrated against them: validity, then name, then chain). The handshake bound is observed (T..T+400 ms) for T in {150,250,400} ms, the one-minute default is a regenerated source fact. Trusted: Coq kernel, extraction + OCaml glue, Go harness (mints certificates with crypto/x509).",
+        technique="Coq proof (decision model of the dial; refutation of aliasing) + regenerated source facts + extracted-model differential correspondence on real handshakes",
+        design="6/C17"),
     "C06": dict(
         text="Coq theorems: exactly gzip and msgpackzip have a compressor and the frame decoder uses the same test (none and every unknown type are treated as uncompressed on both ends); for ANY codec pair with the round-trip law a compressed call frame decodes to the original argument and tags and the reply to a pending compressed call decodes to the original result, for all values and sizes; the pooled gzip readers as a transition system: under every interleaving of any number of Decompress calls with failing ones in between, each call on a well-formed input returns its own decompression and each on a malformed one fails, and no broken reader enters the pool (returning a reader after a failed Reset is refuted with a witness). The harness compares compressed and uncompressed calls both ways for generated values and the four type cases, round-trips empty/tiny/incompressible/repetitive/large payloads through the package's compressors, flips every byte of small gzip payloads (error or the original, never another value, never a panic), and shares the pools between up to 16 goroutines with failing decompressions in between.",
         note="PARTIAL: DEFLATE/CRC-32/msgpackzip themselves are behind the round-trip hypothesis of the transparency theorems (their round trip, corruption detection and absence of panics are tested, not proved). Trusted: Coq kernel, extraction + OCaml glue, Go harness.",
